@@ -325,9 +325,30 @@ func GenCase(r *lib.RNG, name, profile string) *Case {
 	last := make([]int64, len(wires))
 	first := make([]bool, len(wires))
 	fileSameTs := true // all packets of the current capture carry the same timestamp so far
+	// slow case: conversations that stay active for longer than the inactivity timeout (5 min) without
+	// ever being idle that long (every conversation with packets still to come is kept below 290 s)
+	slow := r.Chance(1, 8)
+	lastIdx := make([]int, len(wires))
+	for i, g := range seq {
+		lastIdx[g.conv] = i
+	}
 	for i, g := range seq {
 		if i > 0 {
 			inc := int64(lib.Pick(r, []int{0, 0, 1, 10, 1000, 20_000, 60_000, 1_000_000}))
+			if slow {
+				inc = int64(lib.Pick(r, []int{20, 45, 70, 110, 170})) * 1_000_000
+				for cv := range wires {
+					if first[cv] && lastIdx[cv] >= i {
+						if room := 289_000_000 - (t - last[cv]); inc > room {
+							inc = room
+						}
+					}
+				}
+				if inc < 0 {
+					inc = 0
+				}
+				tags["active_longer_than_timeout"] = true
+			}
 			if cutAt[i] {
 				// equal timestamps across a capture boundary: the builder orders by (timestamp, file name,
 				// index), so with chronological names the wire order is kept. Interesting when the
